@@ -134,8 +134,23 @@ impl<W: Clone> Model<W> {
 
     // --- reachability -----------------------------------------------------
 
-    /// Closure of `sources` under arcs, by naive fixpoint iteration.
+    /// Closure of `sources` under arcs (worklist search).
     pub fn reach(&self, sources: &[usize]) -> BTreeSet<usize> {
+        let mut seen: BTreeSet<usize> = sources.iter().copied().collect();
+        let mut todo: Vec<usize> = seen.iter().copied().collect();
+        while let Some(u) = todo.pop() {
+            for v in self.out(u) {
+                if seen.insert(v) {
+                    todo.push(v);
+                }
+            }
+        }
+        seen
+    }
+
+    /// The same closure by naive fixpoint iteration over the arc list; used
+    /// to cross-check `reach` in the harness's own unit tests.
+    pub fn reach_fixpoint(&self, sources: &[usize]) -> BTreeSet<usize> {
         let mut seen: BTreeSet<usize> = sources.iter().copied().collect();
         loop {
             let mut grew = false;
@@ -432,6 +447,15 @@ mod tests {
         let m = UModel::from_pairs(3, &[(0, 1), (1, 0), (1, 2), (2, 1), (0, 2), (2, 0)]);
         assert_eq!(m.circuits().len(), 5);
         assert_eq!(m.sccs().len(), 1);
+    }
+
+    #[test]
+    fn reach_agrees_with_fixpoint() {
+        let m = UModel::from_pairs(6, &[(0, 1), (1, 2), (2, 0), (3, 4), (4, 3), (2, 5)]);
+        for s in 0..6 {
+            assert_eq!(m.reach(&[s]), m.reach_fixpoint(&[s]));
+        }
+        assert_eq!(m.reach(&[]), m.reach_fixpoint(&[]));
     }
 
     #[test]
